@@ -2075,13 +2075,19 @@ Qed.
 Lemma FN_fR ns0 inputs s : FN ns0 inputs s -> hasR (fpcv s) = true -> fR s = S (length ns0).
 Proof. intros HN Hh. apply (FN_R_iff _ _ _ Hh) in HN. destruct HN as (_ & _ & _ & H & _). exact H. Qed.
 
+Lemma FN_hasR_transfer ns0 inputs s s1 :
+  hasR (fpcv s) = true -> hasR (fpcv s1) = true -> nodes (fw s1) = nodes (fw s) -> fD s1 = fD s -> fR s1 = fR s ->
+  FN ns0 inputs s -> FN ns0 inputs s1.
+Proof. intros H H1 Hn HD HR HN. apply (FN_R_iff ns0 inputs s1 H1). rewrite Hn, HD, HR. apply (FN_R_iff ns0 inputs s H). exact HN. Qed.
+
 Lemma FL_pc inputs s s1 :
-  fw s1 = fw s -> fok s1 = fok s -> flives s1 = flives s -> idx inputs (fpcv s1) = idx inputs (fpcv s) ->
+  regs (fw s1) = regs (fw s) -> nodes (fw s1) = nodes (fw s) -> fok s1 = fok s -> flives s1 = flives s ->
+  idx inputs (fpcv s1) = idx inputs (fpcv s) ->
   (forall i, fpcv s <> FAdd i /\ fpcv s <> FRegA i) ->
   match fpcv s1 with FEnd | FRet | FLoop _ => True | FDoneG | FSpawn => fok s = true | FDefer => fok s = false | _ => False end ->
   FL inputs s -> FL inputs s1.
 Proof.
-  intros Hw Hok Hl Hidx Hno Hpc (L1 & L2 & L3 & L4 & L5). unfold FL. rewrite Hw, Hok, Hl, Hidx.
+  intros Hw Hw2 Hok Hl Hidx Hno Hpc (L1 & L2 & L3 & L4 & L5). unfold FL. rewrite Hw, Hw2, Hok, Hl, Hidx.
   split; [exact L1|]. split; [exact L2|]. split; [|split; [exact L4|]].
   - intros x Hx. destruct (L3 x Hx) as [Hleft|(i & [Hp|Hp] & _)]; [left; exact Hleft| |]; exfalso; destruct (Hno i); auto.
   - destruct (fpcv s1); try contradiction; auto.
@@ -2102,10 +2108,10 @@ Proof.
     specialize (Hk HRr HhR). set (s1 := fset s (w_cancel (fw s) (fR s)) (fpcv s)) in *.
     assert (Hok : fok s = false) by (destruct HFL as (_ & _ & _ & _ & L5); rewrite E in L5; exact L5).
     split; [exact A|]. split; [|split; [|split; [|split]]].
-    + apply (FN_R_iff ns0 inputs _ eq_refl). apply (FN_R_iff ns0 inputs s1 HhR) in B. exact B.
+    + eapply (FN_hasR_transfer ns0 inputs s1); try exact B; try reflexivity; exact HhR.
     + eapply FW_ext; try exact C; try reflexivity. unfold guard, inflight, s1, fset. cbn [fpcv fok]. rewrite E, Hok. reflexivity.
     + eapply FR_ext; try exact D; try reflexivity. intros i k Hp. unfold s1, fset in Hp. cbn [fpcv] in Hp. congruence.
-    + eapply FL_pc; try exact F; try reflexivity.
+    + apply (FL_pc inputs s1); [reflexivity|reflexivity|reflexivity|reflexivity| | | |exact F].
       * unfold s1, fset. cbn [fpcv]. rewrite E. reflexivity.
       * intros i. unfold s1, fset. cbn [fpcv]. rewrite E. split; discriminate.
       * exact I.
@@ -2117,23 +2123,23 @@ Proof.
     destruct (wg (fw s)) as [|k] eqn:Ewg; [lia|].
     assert (Ew1 : w_act (fw s) AWgDone = {| nodes := nodes (fw s); regs := regs (fw s); calls := calls (fw s); wg := k; wgneg := wgneg (fw s) |})
       by (cbn [w_act]; rewrite Ewg; reflexivity).
-    rewrite Ew1. assert (Hok : fok s = true) by (destruct HFL as (_ & _ & _ & _ & L5); rewrite E in L5; exact L5).
+    assert (Hok : fok s = true) by (destruct HFL as (_ & _ & _ & _ & L5); rewrite E in L5; exact L5).
     split; [eapply WInv_nodes_eq; [| |exact HW]; reflexivity|]. split; [|split; [|split; [|split]]].
-    + apply (FN_R_iff ns0 inputs _ eq_refl). apply (FN_R_iff ns0 inputs s HhR) in HN. exact HN.
+    + eapply (FN_hasR_transfer ns0 inputs s); try exact HN; try reflexivity; exact HhR.
     + unfold FW, guard, inflight, fset. cbn [fw fpcv fok wg wgneg regs]. split; [exact Hneg|lia].
     + eapply FR_ext; try exact HFR; try reflexivity. intros i k' Hp. congruence.
-    + eapply FL_pc; try exact HFL; try reflexivity.
+    + apply (FL_pc inputs s); [reflexivity|reflexivity|reflexivity|reflexivity| | | |exact HFL].
       * unfold fset. cbn [fpcv]. rewrite E. reflexivity.
       * intros i. rewrite E. split; discriminate.
       * exact Hok.
-    + apply FK_nonret; unfold fset; cbn [fpcv fwait fucancel is_FRet hasR]; auto. intros _. exact HkR.
+    + apply FK_nonret; unfold fset; cbn [fpcv fwait fucancel is_FRet hasR]; auto.
   - (* FSpawn: start the waiter *)
     assert (Hok : fok s = true) by (destruct HFL as (_ & _ & _ & _ & L5); rewrite E in L5; exact L5).
     split; [exact HW|]. split; [|split; [|split; [|split]]].
-    + apply (FN_R_iff ns0 inputs _ eq_refl). apply (FN_R_iff ns0 inputs s HhR) in HN. exact HN.
+    + eapply (FN_hasR_transfer ns0 inputs s); try exact HN; try reflexivity; exact HhR.
     + eapply FW_ext; try exact HFW; try reflexivity. unfold guard, inflight. cbn [fpcv fok]. rewrite E, Hok. reflexivity.
     + eapply FR_ext; try exact HFR; try reflexivity. intros i k' Hp. congruence.
-    + eapply FL_pc; try exact HFL; try reflexivity.
+    + apply (FL_pc inputs s); [reflexivity|reflexivity|reflexivity|reflexivity| | | |exact HFL].
       * cbn [fpcv]. rewrite E. reflexivity.
       * intros i. rewrite E. split; discriminate.
       * exact I.
@@ -2153,7 +2159,7 @@ Proof.
   destruct (fcancel_parts ns0 inputs s (fR s) HW HN HFW HFR HFL (or_intror (conj HRr HhR))) as (A & B & C & D & F & Hm & _ & Hk).
   specialize (Hk HRr HhR). set (s1 := fset s (w_cancel (fw s) (fR s)) (fpcv s)) in *.
   split; [exact A|]. split; [|split; [|split; [|split]]].
-  - apply (FN_R_iff ns0 inputs _ eq_refl). apply (FN_R_iff ns0 inputs s1 HhR) in B. exact B.
+  - eapply (FN_hasR_transfer ns0 inputs s1); try exact B; try reflexivity; exact HhR.
   - eapply FW_ext; try exact C; try reflexivity. unfold guard, inflight, s1, fset. cbn [fpcv fok]. rewrite E. reflexivity.
   - eapply FR_ext; try exact D; try reflexivity. intros i k Hp. unfold s1, fset in Hp. cbn [fpcv] in Hp. congruence.
   - eapply FL_ext; try exact F; try reflexivity. unfold s1, fset. cbn [fpcv]. exact (eq_sym E).
@@ -2176,7 +2182,7 @@ Proof.
     destruct (Nat.eqb_spec (wg (fw s)) 0) as [Hz|Hz]; [|discriminate]. inversion Hs; subst s'; clear Hs.
     specialize (E ltac:(discriminate)). rewrite E in *. cbn [is_FRet] in *.
     split; [exact HW|]. split; [|split; [|split; [|split]]].
-    + apply (FN_R_iff ns0 inputs _ eq_refl). apply (FN_R_iff ns0 inputs s) in HN; [exact HN|rewrite E; reflexivity].
+    + eapply (FN_hasR_transfer ns0 inputs s); try exact HN; try reflexivity; rewrite E; reflexivity.
     + eapply FW_ext; try exact HFW; try reflexivity. unfold guard, inflight. cbn [fpcv fok]. rewrite E. reflexivity.
     + eapply FR_ext; try exact HFR; try reflexivity. intros i k Hp. congruence.
     + eapply FL_ext; try exact HFL; try reflexivity. cbn [fpcv]. exact (eq_sym E).
@@ -2192,7 +2198,7 @@ Proof.
         -- rewrite Hyf in Ht. discriminate.
         -- specialize (Hst eq_refl). unfold kR in Hst. congruence.
         -- rewrite (Hrun f eq_refl) in Ht. discriminate.
-        -- right. reflexivity.
+        -- right. exact Er.
       * intros _ Hok. destruct (K5 eq_refl Hok) as [_ Hc]. discriminate.
   - (* combined cancel *)
     inversion Hs; subst s'; clear Hs. specialize (E ltac:(discriminate)).
@@ -2202,13 +2208,377 @@ Proof.
     specialize (Hk HRr HhR). set (s1 := fset s (w_cancel (fw s) (fR s)) (fpcv s)) in *.
     rewrite E in K1, K2, K5, K6. cbn [is_FRet] in *.
     split; [exact A|]. split; [|split; [|split; [|split]]].
-    + apply (FN_R_iff ns0 inputs _ HhR). apply (FN_R_iff ns0 inputs s1 HhR) in B. exact B.
+    + eapply (FN_hasR_transfer ns0 inputs s1); try exact B; try reflexivity; exact HhR.
     + eapply FW_ext; try exact C; try reflexivity.
-    + eapply FR_ext; try exact D; try reflexivity.
+    + eapply FR_ext; try exact D; try reflexivity. intros i k Hp; exact Hp.
     + eapply FL_ext; try exact F; try reflexivity.
     + unfold FK. cbn [fpcv fok fwait fucancel]. rewrite E. cbn [is_FRet]. unfold kR in *. unfold s1, fset in Hk. cbn [fw fR] in *.
       split; [discriminate|]. split; [|split; [intros _; exact Hk|split; [intros _; exact Hk|split; [|intros _ _; discriminate]]]].
       * intros _ _. destruct (K2 eq_refl (or_intror (or_introl eq_refl))) as [Hu|Hd]; [left; exact Hu|right].
         intros x Hx. apply Hm. apply Hd. exact Hx.
       * intros _ Hok. destruct (K5 eq_refl Hok) as [_ Hc]. discriminate.
+Qed.
+
+Lemma confl_step_inv ns0 inputs s l s' :
+  wfi inputs (length ns0) -> FInv ns0 inputs s ->
+  confl_step true true inputs (length ns0) s l = Some s' -> FInv ns0 inputs s'.
+Proof.
+  intros Hwf HI Hs. destruct l as [|r|n| |].
+  - cbn [confl_step] in Hs. destruct (fpcv s) eqn:E.
+    + eapply finv_main_a; eauto.
+    + eapply finv_main_a; eauto.
+    + eapply finv_main_a; eauto.
+    + eapply finv_main_b; eauto.
+    + eapply finv_main_b; eauto.
+    + eapply finv_main_c; eauto.
+    + eapply finv_main_c; eauto.
+    + eapply finv_main_b; eauto.
+    + eapply finv_main_d; eauto.
+    + eapply finv_main_d; eauto.
+    + eapply finv_main_d; eauto.
+    + unfold confl_main in Hs. rewrite E in Hs. discriminate.
+    + unfold confl_main in Hs. rewrite E in Hs. discriminate.
+  - cbn [confl_step] in Hs. destruct (w_hook (fw s) r) as [w'|] eqn:Eh; [|discriminate]. inversion Hs; subst s'.
+    eapply finv_hook; eauto.
+  - cbn [confl_step] in Hs. destruct (Nat.ltb_spec n (length ns0)) as [Hn|Hn]; [|discriminate]. inversion Hs; subst s'.
+    apply finv_envcancel; assumption.
+  - cbn [confl_step] in Hs. destruct (fpcv s) eqn:E; try discriminate. inversion Hs; subst s'. apply finv_user; assumption.
+  - eapply finv_waiter; eauto.
+Qed.
+
+Lemma confl_reach ns0 inputs sched :
+  wfi inputs (length ns0) ->
+  FInv ns0 inputs (run (confl_step true true inputs (length ns0)) (confl_init ns0) sched).
+Proof.
+  intros Hwf. apply run_inv with (P := FInv ns0 inputs).
+  - intros s l s'. apply confl_step_inv. exact Hwf.
+  - split; [apply WInv_init|]. split; [split; [auto|reflexivity]|]. split; [split; reflexivity|]. split; [apply FR_nil; reflexivity|].
+    split; [|apply FK_nonret; cbn; auto; discriminate].
+    unfold FL. cbn. fl_tac.
+Qed.
+
+(* wg.Done is never called on a zero counter (Go would panic: "sync: negative WaitGroup counter") *)
+Theorem confl_wg_never_negative ns0 inputs sched :
+  wfi inputs (length ns0) ->
+  wgneg (fw (run (confl_step true true inputs (length ns0)) (confl_init ns0) sched)) = false.
+Proof. intros Hwf. destruct (confl_reach ns0 inputs sched Hwf) as (_ & _ & [H _] & _). exact H. Qed.
+
+Lemma lives_inputs ns0 inputs s :
+  FInv ns0 inputs s -> fpcv s = FRet ->
+  ((forall x, In x (flives s) -> is_canc (nodes (fw s)) x = true) <-> (forall x, In x inputs -> is_canc (nodes (fw s)) x = true)).
+Proof.
+  intros (_ & _ & _ & _ & (_ & L2 & _ & L4 & _) & _) E. split.
+  - intros H x Hx. apply In_nth_error in Hx. destruct Hx as [j Hj].
+    destruct (L4 j x) as [Hk|Hl]; [rewrite E; cbn; eapply nth_error_lt; eauto|exact Hj|exact Hk|apply H; exact Hl].
+  - intros H x Hx. apply H. apply L2. exact Hx.
+Qed.
+
+(* the result is never cancelled during construction, and after return it is cancelled only if the returned cancel was
+   called or every input is cancelled: it stays live while at least one input is live *)
+Theorem confl_live_while_any_live ns0 inputs sched :
+  wfi inputs (length ns0) ->
+  let s := run (confl_step true true inputs (length ns0)) (confl_init ns0) sched in
+  hasR (fpcv s) = true -> kR s = true ->
+  fpcv s = FRet /\ (fucancel s = true \/ forall x, In x inputs -> is_canc (nodes (fw s)) x = true).
+Proof.
+  intros Hwf s Hh Hk. pose proof (confl_reach ns0 inputs sched Hwf) as HI. fold s in HI.
+  pose proof HI as (_ & _ & _ & _ & _ & (K1 & K2 & _)).
+  destruct (is_FRet (fpcv s)) eqn:Ef.
+  - assert (E : fpcv s = FRet) by (destruct (fpcv s); try discriminate; reflexivity). split; [exact E|].
+    destruct (K2 eq_refl (or_introl Hk)) as [Hu|Hd]; [left; exact Hu|right]. apply (lives_inputs ns0 inputs s HI E). exact Hd.
+  - destruct (K1 eq_refl) as (_ & _ & Hc). rewrite (Hc Hh) in Hk. discriminate.
+Qed.
+
+Lemma sum_zero {A : Type} (g : A -> nat) (l : list A) :
+  (forall k y, nth_error l k = Some y -> g y = 0) -> list_sum (map g l) = 0.
+Proof.
+  induction l as [|y t IH]; intros H; [reflexivity|]. cbn [map]. rewrite list_sum_cons.
+  rewrite (H 0 y eq_refl). rewrite IH; [reflexivity|]. intros k z Hz. apply (H (S k) z Hz).
+Qed.
+
+Lemma confl_quiescent_inv s : confl_quiescent s = true ->
+  fpcv s = FRet /\ no_running (fw s) = true /\ waiter_idle s = true.
+Proof.
+  unfold confl_quiescent. destruct (fpcv s); try discriminate. intros H. apply andb_prop in H. tauto.
+Qed.
+
+(* once every hook goroutine and the waiter have run: cancelled if the cancel function was called or all inputs are cancelled *)
+Theorem confl_cancelled_when_all_dead ns0 inputs sched :
+  wfi inputs (length ns0) ->
+  let s := run (confl_step true true inputs (length ns0)) (confl_init ns0) sched in
+  confl_quiescent s = true ->
+  (fucancel s = true \/ forall x, In x inputs -> is_canc (nodes (fw s)) x = true) -> kR s = true.
+Proof.
+  intros Hwf s Hq Hsrc. pose proof (confl_reach ns0 inputs sched Hwf) as HI. fold s in HI.
+  destruct (confl_quiescent_inv s Hq) as (E & Hnr & Hidle).
+  pose proof HI as (HW & _ & [_ Hwg] & HFR & (_ & L2 & _) & (_ & _ & K3 & K4 & K5 & K6)).
+  rewrite E in K5, K6. cbn [is_FRet] in K5, K6.
+  destruct Hsrc as [Hu|Hall]; [apply K3; exact Hu|].
+  destruct (fok s) eqn:Eok; [|apply (K5 eq_refl eq_refl)].
+  specialize (K6 eq_refl eq_refl). unfold waiter_idle in Hidle.
+  destruct (fwait s) eqn:Ew; try congruence; [|apply K4; reflexivity].
+  exfalso. unfold guard, inflight in Hwg. rewrite E, Eok in Hwg.
+  rewrite sum_zero in Hwg; [rewrite Hwg in Hidle; discriminate|].
+  intros k y Hy. pose proof (proj1 (no_running_spec (fw s)) Hnr k y Hy) as Hny.
+  destruct (HW k y Hy) as (_ & Hp & _).
+  unfold tok. destruct (rst y) eqn:Er; try reflexivity; [|exfalso; apply (Hny f); reflexivity].
+  destruct (HFR k y Hy) as [(Hf & Hin & _)|(a & Hf & _)]; [|rewrite Hf; reflexivity].
+  specialize (Hp eq_refl). rewrite (Hall _ (L2 _ Hin)) in Hp. discriminate.
+Qed.
+
+(* the waiter goroutine never outlives the result: once the result is cancelled and everything has run, it has exited
+   (or was never started because no input was live) *)
+Theorem confl_waiter_exits ns0 inputs sched :
+  wfi inputs (length ns0) ->
+  let s := run (confl_step true true inputs (length ns0)) (confl_init ns0) sched in
+  confl_quiescent s = true -> kR s = true ->
+  (fok s = true /\ fwait s = WExit) \/ (fok s = false /\ fwait s = WNone).
+Proof.
+  intros Hwf s Hq Hk. pose proof (confl_reach ns0 inputs sched Hwf) as HI. fold s in HI.
+  destruct (confl_quiescent_inv s Hq) as (E & Hnr & Hidle).
+  pose proof HI as (HW & _ & [_ Hwg] & HFR & _ & (_ & _ & K3 & K4 & K5 & K6)).
+  rewrite E in K5, K6. cbn [is_FRet] in K5, K6.
+  destruct (fok s) eqn:Eok; [left|right; split; [reflexivity|apply (K5 eq_refl eq_refl)]].
+  split; [reflexivity|]. specialize (K6 eq_refl eq_refl). unfold waiter_idle in Hidle.
+  destruct (fwait s) eqn:Ew; try congruence.
+  exfalso. unfold guard, inflight in Hwg. rewrite E, Eok in Hwg.
+  rewrite sum_zero in Hwg; [rewrite Hwg in Hidle; discriminate|].
+  assert (Hnr' : forall k y, nth_error (regs (fw s)) k = Some y -> forall f, rst y <> Run f)
+    by (apply no_running_spec; exact Hnr).
+  intros k y Hy. unfold tok. destruct (rst y) eqn:Er; try reflexivity; [|exfalso; apply (Hnr' k y Hy f); exact Er].
+  destruct (HFR k y Hy) as [(Hf & _ & _ & _ & Hpart)|(a & Hf & _)]; [|rewrite Hf; reflexivity].
+  exfalso. destruct Hpart as [(i & Hpc)|(b & yb & Hyb & Hybf)]; [congruence|].
+  destruct (HFR b yb Hyb) as [(Hfb & _)|(a & Hfb & Hrn & Hns & _ & _ & Hfin)]; [congruence|].
+  rewrite Hybf in Hfb. inversion Hfb; subst a.
+  destruct (HW b yb Hyb) as (_ & Hpb & _). rewrite Hrn in Hpb. unfold kR in Hk.
+  assert (Hd : rst yb = Done).
+  { destruct (rst yb) eqn:Eb; [specialize (Hpb eq_refl); congruence|congruence|exfalso; apply (Hnr' b yb Hyb f); exact Eb|reflexivity]. }
+  specialize (Hfin (or_intror Hd)).
+  assert (is_pending (fw s) k = true) by (apply is_pending_spec; eauto). congruence.
+Qed.
+
+(* only the first input's values *)
+Theorem confl_values ns0 inputs sched :
+  wfi inputs (length ns0) ->
+  let s := run (confl_step true true inputs (length ns0)) (confl_init ns0) sched in
+  fpcv s = FRet -> forall c0, hd_error inputs = Some c0 -> vals_of (nodes (fw s)) (fR s) = vals_of ns0 c0.
+Proof.
+  intros Hwf s E c0 Hc. destruct (confl_reach ns0 inputs sched Hwf) as (_ & HN & _). fold s in HN.
+  apply (FN_R_iff ns0 inputs s) in HN; [|rewrite E; reflexivity].
+  destruct HN as (_ & _ & _ & HR & _ & _ & _ & Hv). rewrite HR. apply Hv. exact Hc.
+Qed.
+
+Definition two_roots : list node := build_env [ {| eparent := None; ekv := Some (1, 10) |}; {| eparent := None; ekv := Some (1, 11) |} ] [].
+
+(* DEFECT variant (detach = false: WithCancel(contexts[0]) without WithoutCancel): the result dies with the first input
+   although the second is live and cancel() was not called *)
+Theorem confl_nodetach_refuted :
+  exists sched,
+    let s := run (confl_step false true [0; 1] 2) (confl_init two_roots) sched in
+    fpcv s = FRet /\ kR s = true /\ fucancel s = false /\ In 1 (flives s) /\ is_canc (nodes (fw s)) 1 = false.
+Proof.
+  exists (repeat LMain 15 ++ [LCancel 0]). vm_compute. repeat split; auto.
+Qed.
+
+(* DEFECT variant (consult = false): ChainAfterFunc's primary hook calls wg.Done although stop() failed: double Done *)
+Theorem confl_noconsult_refuted :
+  exists sched, wgneg (fw (run (confl_step true false [0] 2) (confl_init two_roots) sched)) = true.
+Proof.
+  exists (repeat LMain 12 ++ [LCancel 0; LUser; LHook 0; LHook 1; LHook 1]). vm_compute. reflexivity.
+Qed.
+
+Example confl_stays_live_then_dies :
+  let step := confl_step true true [0; 1] 2 in
+  let s0 := confl_settle true true [0; 1] 2 60 (confl_init two_roots) in
+  let s1 := confl_settle true true [0; 1] 2 60 (run step s0 [LCancel 0]) in
+  let s2 := confl_settle true true [0; 1] 2 60 (run step s1 [LCancel 1]) in
+  confl_quiescent s0 = true /\ kR s0 = false /\ confl_quiescent s1 = true /\ kR s1 = false /\
+  confl_quiescent s2 = true /\ kR s2 = true /\ fwait s2 = WExit /\ wg (fw s2) = 0 /\
+  lookup (vals_of (nodes (fw s2)) (fR s2)) 1 = Some 10.
+Proof. vm_compute. repeat split; reflexivity. Qed.
+
+(* an input cancelled between its Err() check and its AfterFunc registration is not lost *)
+Example confl_cancel_during_construction :
+  let step := confl_step true true [0] 2 in
+  let s := confl_settle true true [0] 2 60 (run step (confl_init two_roots) [LMain; LMain; LMain; LMain; LCancel 0]) in
+  confl_quiescent s = true /\ kR s = true /\ fwait s = WExit /\ wgneg (fw s) = false.
+Proof. vm_compute. repeat split; reflexivity. Qed.
+
+Example confl_user_cancel_releases_waiter :
+  let step := confl_step true true [0; 1] 2 in
+  let s0 := confl_settle true true [0; 1] 2 60 (confl_init two_roots) in
+  let s1 := confl_settle true true [0; 1] 2 60 (run step s0 [LUser]) in
+  kR s1 = true /\ confl_quiescent s1 = true /\ fwait s1 = WExit /\ map rst (regs (fw s1)) = [Stopped; Done; Stopped; Done].
+Proof. vm_compute. repeat split; reflexivity. Qed.
+
+Example wfi_example : wfi [0; 1] (length two_roots).
+Proof. intros x [<-|[<-|[]]]; cbn; lia. Qed.
+
+(* ------------------------------------------------------------------------------------------------------------ *)
+(* H. progress: a lexicographic measure (steps left in the library function, work left in hook goroutines + waiter)   *)
+(*    strictly decreases on every library/hook/waiter step and never increases on an environment step, so every     *)
+(*    schedule reaches quiescence after finitely many non-environment steps                                         *)
+(* ------------------------------------------------------------------------------------------------------------ *)
+Definition wt (f : fn) : nat := match f with FAct _ => 1 | FChain _ _ _ => 2 | FStopAll rs => 1 + length rs end.
+Definition regm (x : reg) : nat := match rst x with Pending => 1 + wt (rfn x) | Run f => wt f | _ => 0 end.
+Definition Mw (w : world) : nat := list_sum (map regm (regs w)).
+
+Definition lexlt (a b : nat * nat) : Prop := fst a < fst b \/ (fst a = fst b /\ snd a < snd b).
+Definition lexle (a b : nat * nat) : Prop := fst a < fst b \/ (fst a = fst b /\ snd a <= snd b).
+
+Lemma sum_map_le {A : Type} (g : A -> nat) (h : A -> A) (l : list A) :
+  (forall x, g (h x) <= g x) -> list_sum (map g (map h l)) <= list_sum (map g l).
+Proof.
+  intros H. induction l as [|y t IH]; [cbn; lia|]. change (list_sum (g (h y) :: map g (map h t)) <= list_sum (g y :: map g t)).
+  rewrite !list_sum_cons. specialize (H y). lia.
+Qed.
+
+Lemma regm_fire ns x : regm (fire ns x) <= regm x.
+Proof.
+  destruct (fire_cases ns x) as [(Ep & Ek & ->)|[(Ep & Ek & ->)|(Hnp & ->)]]; try lia.
+  unfold regm. cbn [set_rst rst rfn]. rewrite Ep. lia.
+Qed.
+
+Lemma Mw_cancel w n : Mw (w_cancel w n) <= Mw w.
+Proof. unfold Mw. cbn [w_cancel regs]. apply sum_map_le. intros x. apply regm_fire. Qed.
+
+Lemma Mw_act w a : Mw (w_act w a) <= Mw w.
+Proof. destruct a as [|n|]; cbn [w_act]; [unfold Mw; cbn [regs]; lia|apply Mw_cancel|destruct (wg w); unfold Mw; cbn [regs]; lia]. Qed.
+
+Lemma Mw_setrst w r st x :
+  nth_error (regs w) r = Some x -> Mw (w_setrst w r st) + regm x = Mw w + regm (set_rst x st).
+Proof. intros Hx. unfold Mw. cbn [w_setrst w_setregs regs]. apply (sum_updf regm (fun y => set_rst y st) _ _ _ Hx). Qed.
+
+Lemma Mw_stop w r0 : Mw (fst (w_stop w r0)) <= Mw w.
+Proof.
+  unfold w_stop. destruct (is_pending w r0) eqn:Ep; cbn [fst]; [|lia].
+  apply is_pending_spec in Ep. destruct Ep as (x0 & Hx0 & Hp). pose proof (Mw_setrst w r0 Stopped x0 Hx0) as H.
+  unfold regm at 2 in H. cbn [set_rst rst] in H. lia.
+Qed.
+
+Lemma Mw_hook w r w' : w_hook w r = Some w' -> Mw w' < Mw w.
+Proof.
+  intros Hh. apply w_hook_inv in Hh. destruct Hh as (x & Hx & Hc).
+  destruct Hc as [(a & Ea & ->)|[(c & r0 & a & Ea & Ep & ->)|[(c & r0 & a & Ea & Ep & ->)|[(Ea & ->)|(r0 & rs & Ea & ->)]]]].
+  - assert (Hx1 : nth_error (regs (w_act w a)) r = Some x).
+    { destruct a as [|n|]; cbn [w_act]; [exact Hx| |destruct (wg w); exact Hx].
+      rewrite (regs_cancel_fwd w n r x Hx). rewrite fire_rst_np by congruence. reflexivity. }
+    pose proof (Mw_setrst _ r Done x Hx1) as H. pose proof (Mw_act w a) as H2.
+    unfold regm in H at 1 2. cbn [set_rst rst] in H. rewrite Ea in H. cbn [wt] in H. lia.
+  - apply is_pending_spec in Ep. destruct Ep as (x0 & Hx0 & Hp0).
+    assert (Hne : r <> r0) by (intros ->; congruence).
+    pose proof (Mw_setrst w r0 Stopped x0 Hx0) as H1.
+    assert (Hx1 : nth_error (regs (w_setrst w r0 Stopped)) r = Some x).
+    { rewrite (setrst_fwd w r0 Stopped r x Hx). destruct (Nat.eqb_spec r r0); [contradiction|reflexivity]. }
+    pose proof (Mw_setrst _ r (Run (FAct a)) x Hx1) as H2.
+    unfold regm in H1 at 2. unfold regm in H2 at 1 2. cbn [set_rst rst] in H1, H2. rewrite Ea in H2. cbn [wt] in H2. lia.
+  - pose proof (Mw_setrst w r (if negb c then Run (FAct a) else Done) x Hx) as H.
+    unfold regm in H at 1 2. cbn [set_rst rst] in H. rewrite Ea in H. cbn [wt] in H. destruct (negb c); cbn [wt] in H; lia.
+  - pose proof (Mw_setrst w r Done x Hx) as H. unfold regm in H at 1 2. cbn [set_rst rst] in H. rewrite Ea in H. cbn [wt length] in H. lia.
+  - pose proof (Mw_stop w r0) as H1.
+    assert (Hx1 : nth_error (regs (fst (w_stop w r0))) r = Some x).
+    { unfold w_stop. destruct (is_pending w r0) eqn:Ep; cbn [fst]; [|exact Hx].
+      apply is_pending_spec in Ep. destruct Ep as (x0 & Hx0 & Hp0). assert (Hne : r <> r0) by (intros ->; congruence).
+      rewrite (setrst_fwd w r0 Stopped r x Hx). destruct (Nat.eqb_spec r r0); [contradiction|reflexivity]. }
+    pose proof (Mw_setrst _ r (Run (FStopAll rs)) x Hx1) as H2.
+    unfold regm in H2 at 1 2. cbn [set_rst rst] in H2. rewrite Ea in H2. cbn [wt length] in H2. lia.
+Qed.
+
+Definition chain_mu (s : cst) : nat * nat := (2 - cpc s, Mw (cw s)).
+
+Theorem chain_progress consult cx other nenv s l s' :
+  chain_step consult cx other nenv s l = Some s' ->
+  match l with LCancel _ => lexle (chain_mu s') (chain_mu s) | _ => lexlt (chain_mu s') (chain_mu s) end.
+Proof.
+  intros Hs. destruct l as [|r|n| |]; cbn [chain_step] in Hs; try discriminate.
+  - left. destruct (cpc s) as [|[|pc]] eqn:E; try discriminate; inversion Hs; subst s'; unfold chain_mu; cbn [fst cpc]; rewrite E; lia.
+  - destruct (w_hook (cw s) r) as [w'|] eqn:Eh; [|discriminate]. inversion Hs; subst s'. right. unfold chain_mu. cbn [fst snd cw cpc].
+    split; [reflexivity|eapply Mw_hook; eauto].
+  - destruct (n <? nenv); [|discriminate]. inversion Hs; subst s'. right. unfold chain_mu. cbn [fst snd cw cpc].
+    split; [reflexivity|apply Mw_cancel].
+Qed.
+
+Definition combine_rem (L : nat) (pc : bpc) : nat :=
+  match pc with
+  | BStart => 2 * L + 8
+  | BCheck i _ => (L - i) + L + 6
+  | BEarlyNew => 2
+  | BEarlyCancel => 1
+  | BNew => L + 4
+  | BReg i => (L - i) + 3
+  | BStop => 2
+  | _ => 0
+  end.
+Definition combine_mu (L : nat) (s : bst) : nat * nat := (combine_rem L (bpcv s), Mw (bw s)).
+
+Theorem combine_progress regstop primary others nenv s l s' :
+  combine_step regstop primary others nenv s l = Some s' ->
+  match l with LCancel _ => lexle (combine_mu (length others) s') (combine_mu (length others) s)
+             | _ => lexlt (combine_mu (length others) s') (combine_mu (length others) s) end.
+Proof.
+  intros Hs. destruct l as [|r|n| |]; cbn [combine_step] in Hs; try discriminate.
+  - left. unfold combine_main in Hs. unfold combine_mu. cbn [fst].
+    destruct (bpcv s) as [|i n| | | |i| |r|r|r] eqn:E; try discriminate.
+    + destruct primary as [p|]; [destruct (is_canc (nodes (bw s)) p)|]; inversion Hs; subst s'; cbn [bset bpcv combine_rem]; lia.
+    + destruct (nth_error others i) as [[o|]|] eqn:Eo.
+      * apply nth_error_lt in Eo. destruct (is_canc (nodes (bw s)) o); inversion Hs; subst s'; cbn [bset bpcv combine_rem]; lia.
+      * apply nth_error_lt in Eo. inversion Hs; subst s'; cbn [bset bpcv combine_rem]; lia.
+      * destruct (n =? 0); inversion Hs; subst s'; cbn [bset bpcv combine_rem]; lia.
+    + inversion Hs; subst s'; cbn [bpcv combine_rem]; lia.
+    + inversion Hs; subst s'; cbn [bset bpcv combine_rem]; lia.
+    + inversion Hs; subst s'; cbn [bpcv combine_rem]; lia.
+    + destruct (nth_error others i) as [[o|]|] eqn:Eo; [apply nth_error_lt in Eo|apply nth_error_lt in Eo|];
+        inversion Hs; subst s'; cbn [bset bpcv combine_rem]; lia.
+    + inversion Hs; subst s'; cbn [bset bpcv combine_rem]; lia.
+  - destruct (w_hook (bw s) r) as [w'|] eqn:Eh; [|discriminate]. inversion Hs; subst s'. right. unfold combine_mu. cbn [fst snd bset bw bpcv].
+    split; [reflexivity|eapply Mw_hook; eauto].
+  - destruct (n <? nenv); [|discriminate]. inversion Hs; subst s'. right. unfold combine_mu. cbn [fst snd bset bw bpcv].
+    split; [reflexivity|apply Mw_cancel].
+Qed.
+
+Definition confl_rem (L : nat) (pc : fpc) : nat :=
+  match pc with
+  | F0 => 4 * L + 12 | F1 => 4 * L + 11 | F2 => 4 * L + 10
+  | FLoop i => 4 * (L - i) + 9
+  | FAdd i => 4 * (L - S i) + 12
+  | FRegA i => 4 * (L - S i) + 11
+  | FRegB i _ => 4 * (L - S i) + 10
+  | FEnd => 4 | FDefer => 1 | FDoneG => 2 | FSpawn => 1
+  | FRet | FPanic => 0
+  end.
+Definition wpot (p : wpc) : nat := match p with WWait => 2 | WCancel => 1 | _ => 0 end.
+Definition confl_mu (L : nat) (s : fstate) : nat * nat := (confl_rem L (fpcv s), Mw (fw s) + wpot (fwait s)).
+
+Theorem confl_progress detach consult inputs nenv s l s' :
+  confl_step detach consult inputs nenv s l = Some s' ->
+  match l with LCancel _ | LUser => lexle (confl_mu (length inputs) s') (confl_mu (length inputs) s)
+             | _ => lexlt (confl_mu (length inputs) s') (confl_mu (length inputs) s) end.
+Proof.
+  intros Hs. destruct l as [|r|n| |]; cbn [confl_step] in Hs.
+  - left. unfold confl_main in Hs. unfold confl_mu. cbn [fst].
+    destruct (fpcv s) as [| | |i|i|i|i a| | | | | |] eqn:E; try discriminate.
+    + destruct inputs as [|c0 rest]; [|destruct detach]; inversion Hs; subst s'; cbn [fset fpcv confl_rem length]; lia.
+    + inversion Hs; subst s'; cbn [fpcv confl_rem]; lia.
+    + inversion Hs; subst s'; cbn [fset fpcv confl_rem]; lia.
+    + destruct (nth_error inputs i) as [x|] eqn:Ex.
+      * apply nth_error_lt in Ex. destruct (is_canc (nodes (fw s)) x); inversion Hs; subst s'; cbn [fset fpcv confl_rem]; lia.
+      * inversion Hs; subst s'; cbn [fset fpcv confl_rem]; lia.
+    + inversion Hs; subst s'; cbn [fset fpcv confl_rem]; lia.
+    + destruct (nth_error inputs i) as [x|] eqn:Ex; [|discriminate]. inversion Hs; subst s'; cbn [fset fpcv confl_rem]; lia.
+    + inversion Hs; subst s'; cbn [fset fpcv confl_rem]; lia.
+    + destruct (fok s); inversion Hs; subst s'; cbn [fset fpcv confl_rem]; lia.
+    + inversion Hs; subst s'; cbn [fset fpcv confl_rem]; lia.
+    + inversion Hs; subst s'; cbn [fset fpcv confl_rem]; lia.
+    + inversion Hs; subst s'; cbn [fpcv confl_rem]; lia.
+  - destruct (w_hook (fw s) r) as [w'|] eqn:Eh; [|discriminate]. inversion Hs; subst s'. right. unfold confl_mu. cbn [fst snd fset fw fpcv fwait].
+    split; [reflexivity|]. pose proof (Mw_hook _ _ _ Eh). lia.
+  - destruct (n <? nenv); [|discriminate]. inversion Hs; subst s'. right. unfold confl_mu. cbn [fst snd fset fw fpcv fwait].
+    split; [reflexivity|]. pose proof (Mw_cancel (fw s) n). lia.
+  - destruct (fpcv s) eqn:E; try discriminate. inversion Hs; subst s'. right. unfold confl_mu. cbn [fst snd fw fpcv fwait].
+    rewrite E. split; [reflexivity|]. pose proof (Mw_cancel (fw s) (fR s)). lia.
+  - destruct (fwait s) eqn:Ew; try discriminate.
+    + destruct (wg (fw s) =? 0); [|discriminate]. inversion Hs; subst s'. right. unfold confl_mu. cbn [fst snd fw fpcv fwait wpot].
+      rewrite Ew. cbn [wpot]. split; [reflexivity|lia].
+    + inversion Hs; subst s'. right. unfold confl_mu. cbn [fst snd fw fpcv fwait wpot]. rewrite Ew. cbn [wpot].
+      split; [reflexivity|]. pose proof (Mw_cancel (fw s) (fR s)). lia.
 Qed.
